@@ -361,7 +361,6 @@ def w_crc9_check(task):
         except Exception as e:
             acc.violation("exception_crc9:" + exc_sig(e), case, repr(e))
         acc.case(nontrivial=True, outcome=(v == want), sample=case if v == want else None)
-    # the bit-string entry point with every mask of at most 9 bits
     return acc
 
 
